@@ -150,11 +150,31 @@ def gen_pending(rng):
     return ops
 
 
+def gen_zero_count(rng):
+    """hostile span batches that announce no spans at all take up every slot of the queue while the sender is not consuming;
+    well-formed batches arrive in that state and after the queue has emptied again: the capacity counter must come back"""
+    q = rng.choice([1, 2, 3, 4, 5, 8])
+    ops = ["spanq new %d" % q]
+    if rng.random() < 0.4:
+        ops += ["spanq connect ok", "spanq batch 1"]        # the sender is busy with one batch
+    for _ in range(q + rng.randint(0, 2)):
+        ops.append("spanq batch 0")
+    for _ in range(rng.randint(1, 4)):
+        ops.append("spanq batch %d" % rng.choice([1, 1, 2, q]))
+    ops += ["spanq connect ok"] + ["spanq send ok"] * (q + 4)
+    for _ in range(rng.randint(2, 5)):
+        ops.append("spanq batch %d" % rng.choice([1, 2]))
+        ops.append("spanq send ok")
+    ops += ["spanq shutdown", "spanq send ok", "spanq connect ok", "spanq batch 1"]
+    return ops
+
+
 def plan(ctx):
     rng, tier = ctx["rng"], ctx["tier"]
     n = 120 if tier == "quick" else 3000
     seqs = [("sq%d" % i, gen(rng, big=(i % 17 == 16))) for i in range(n)]
     seqs += [("sp%d" % i, gen_pending(rng)) for i in range(n // 2)]
+    seqs += [("sz%d" % i, gen_zero_count(rng)) for i in range(n // 6)]
     return [("corpus", corpus(ID)), ("gen", seqs)]
 
 
